@@ -262,7 +262,31 @@ fn env_strategy() -> BoxedStrategy<Vec<(String, String)>> {
         Just("RUST_BACKTRACE".to_string()),
         "VH_[A-Z]{1,5}",
     ];
-    proptest::collection::vec((name, "[a-zA-Z0-9_:/.=-]{0,12}"), 1..4)
+    // variables the node itself reads for its EVM network when NO network is named on its command line
+    // (evmlib get_evm_network_from_env): antctl always names the network, so they must not change what
+    // the node runs on
+    let evm_var = prop_oneof![
+        3 => prop_oneof![Just("arbitrum-one"), Just("arbitrum-sepolia"), Just("local"), Just("mainnet")].prop_map(|v| ("EVM_NETWORK".to_string(), v.to_string())),
+        1 => "[a-z]{1,6}".prop_map(|h| ("RPC_URL".to_string(), format!("http://{h}.example:8545/"))),
+        1 => any::<u64>().prop_map(|n| ("PAYMENT_TOKEN_ADDRESS".to_string(), format!("0x{:040x}", n))),
+        1 => any::<u64>().prop_map(|n| ("DATA_PAYMENTS_ADDRESS".to_string(), format!("0x{:040x}", n))),
+    ];
+    let plain = (name, "[a-zA-Z0-9_:/.=-]{0,12}");
+    let evm_triple = (any::<u64>(), any::<u64>(), "[a-z]{1,6}").prop_map(|(a, b, h)| {
+        vec![
+            ("RPC_URL".to_string(), format!("http://{h}.example:8545/")),
+            ("PAYMENT_TOKEN_ADDRESS".to_string(), format!("0x{:040x}", a)),
+            ("DATA_PAYMENTS_ADDRESS".to_string(), format!("0x{:040x}", b)),
+        ]
+    });
+    (
+        proptest::collection::vec(prop_oneof![5 => plain, 1 => evm_var], 1..4),
+        prop_oneof![6 => Just(vec![]), 1 => evm_triple],
+    )
+        .prop_map(|(mut v, extra)| {
+            v.extend(extra);
+            v
+        })
         .prop_map(|mut v| {
             // one value per name
             let mut seen = std::collections::BTreeSet::new();
@@ -1417,7 +1441,7 @@ pub fn run(cfg: RunCfg) {
         "generated inputs are what antctl's own command line can produce: clap conflicts of PeersArgs (--first vs --peer/--network-contacts-url, --local vs --network-contacts-url) and --count vs --first respected; URLs without ','; owner never starts with '-'; directory names are valid UTF-8 without '/'; the three requested ports are pairwise distinct and < 65535 (antctl computes port+1 unconditionally: C17's subject); env values without ','".into(),
         "UpgradeOptions.auto_restart and .env_variables are explicit upgrade inputs (statement: 'differing only where the upgrade explicitly changes something'); env defaults to the registry's variables as cmd/node.rs does. cmd::node::upgrade itself hard-codes auto_restart=false; that glue needs downloads and the real service manager and is outside the harness".into(),
         "data/log directory of the service: the registry's recorded paths are taken as the intended ones, and must lie under the requested base directories".into(),
-        "the node is spawned with a cleared environment plus the definition's environment variables; variables that change option interpretation (ANT_PEERS, EVM_*/RPC_URL) are not generated".into(),
+        "the node is spawned with a cleared environment plus the definition's environment variables; ANT_PEERS (documented to add to the peers given on the command line) is not generated; EVM_NETWORK / RPC_URL / PAYMENT_TOKEN_ADDRESS / DATA_PAYMENTS_ADDRESS are: antctl always names the network on the command line, so they must not change the network the node runs on".into(),
     ];
     fakeos::quietly(&mut rep, |rep| {
         vh_core::section!(
